@@ -1,10 +1,11 @@
 """C09 — observe registration is counted, reversible, failure-atomic and weak."""
 from . import obslib as O
+from . import obsdeco as DECO
 
 PROPERTY = "C09"
 DRIVER = "TraitsVerif/Driver/Obs.lean"
 PROPS_MODULES = ["TraitsVerif.Props.C09"]
-TRANSLATORS = []
+TRANSLATORS = ["obsl", "notl"]
 RULE = ("histories over the C08 pool interleaving observe / observe(remove=True) of 2 bound-method handlers (each "
         "also through traits.observation.api.observe with a custom dispatcher that is a fresh, equal bound method at "
         "every call = handler keys 10, 11; failing removals of expression lists whose later part was never "
@@ -18,6 +19,10 @@ RULE = ("histories over the C08 pool interleaving observe / observe(remove=True)
         "non-trivial = an op delivered, changed a population or raised; distinct = distinct output line")
 TRUSTED = O_TRUSTED = [
     "same model, driver and from-scratch oracle as C08 (harness/props/obslib.py)",
+    "SOURCE TIE (translators obsl, notl): the registration walk, the shared undo log, apply_observers and the "
+    "notifier reference counting are translated from the source text on every run and the model is PROVED equal "
+    "to their interpretation (C09_*_is_source); the runtime of the interpreters (IObserver node interface, "
+    "identity of notifier objects, ==-equal handlers/dispatchers as one identifier) is trusted - see C08 TRUSTED",
     "TEST, not proof: the garbage-collection clause (registrations keep neither the observed object nor a "
     "bound-method handler's owner alive; nothing is called or raised after collection) is checked on the real "
     "code with weakref + gc.collect() at every point of generated histories; the Lean side proves only "
@@ -27,6 +32,7 @@ ASSUMPTIONS = ["dispatch='same' only",
                "unregistering an expression that was never registered but overlaps an active registration of the "
                "same handler and object is outside the statement (the history is not judged after such a call)",
                "CPython reference counting / gc semantics"]
+RULE = RULE + DECO.RULE
 EXHAUSTIVE = {"quick": False, "thorough": True}
 
 F4_WITNESS = "obs|3|N,N,N|addt 1 extra 0;setl 0 kids 100 [1,2];obs 0 0 t.kids.1.0 li.1.0 then t.extra.1.0 then"
@@ -49,6 +55,10 @@ def corpus():
         "obs|3|N,N,N|obs 0 0 any.1;addt 0 l2 0;get 0 l2 100;la 100 1;unobs 0 0 any.1;la 100 2",
         "obs|3|N,N,N|addt 1 l2 1;obs 0 0 t.child.1.0 meta.1 then;set 0 child 1;addt 2 l2 2;set 0 child 2;"
         "unobs 0 0 t.child.1.0 meta.1 then",
+        # add_trait('l2', List) abandoned after the `l2_items` companion was defined (the `trait_added`
+        # maintainer of `*:*` raises on a str), repeated, then the registration is removed
+        "obs|3|N,N,N|obs 0 0 any.0 any.1 then;addt 0 l2 0;addt 0 l2 0;unobs 0 0 any.0 any.1 then;addt 0 l2 0;"
+        "get 0 l2 100;la 100 0;addt 1 l2 3",
         # known: ad-hoc attribute defined through another instance (implementation + oracle only)
         "#obs|3|N,N,N|obs 0 0 any.1;obs 0 1 any.1;adhoc 0 1;adhoc 1 2;unobs 0 1 any.1;unobs 0 0 any.1",
         # handler key 10 + h: handler h through traits.observation.api.observe(dispatcher=queue.dispatch),
@@ -90,9 +100,13 @@ def generate(rng, tier):
     for _ in range(ngc):
         yield "#gc" + O.history_c09(rng, maxops=8, gc_case=True)
     yield from O.adhoc_cases(rng, 12 if tier == "quick" else 200)
+    yield from DECO.corpus()              # `#deco|…`: class shapes with decorator-form observers (obsdeco.py)
+    yield from DECO.generate(rng, tier)
 
 
 def run_impl(case):
+    if case.startswith("#deco|"):
+        return DECO.run_case(case)
     if case.startswith("#gc"):
         return O.run_gc_case(case[3:])
     out, _hits08, hits09, tags = O.run_case(case)
